@@ -80,9 +80,16 @@ def publishStaticOk (p : Publish) : Bool :=
   && optOk p.correlationData && optStrOk p.contentType && upsOk p.userProps
   && (match p.payloadFormat with | none => true | some f => f ≤ 1)
 
+def FilterClass.isShared : FilterClass → Bool
+  | .shared _ => true
+  | _ => false
+
+/-- 3.8.3: a non-empty list of well-formed filters; "It is a Protocol Error to set the No Local bit to 1 on a Shared
+    Subscription" [MQTT-3.8.3-4] - a rule about the packet alone, whatever the server announced -/
 def subscribeStaticOk (p : Subscribe) : Bool :=
   !p.subscriptions.isEmpty && upsOk p.userProps
-  && p.subscriptions.all (fun s => classify s.topicFilter != .invalid && s.qos ≤ 2 && s.retainHandling ≤ 2)
+  && p.subscriptions.all (fun s => classify s.topicFilter != .invalid && s.qos ≤ 2 && s.retainHandling ≤ 2
+        && !((classify s.topicFilter).isShared && s.noLocal))
   && (match p.subscriptionId with | none => true | some i => 1 ≤ i && i ≤ 268435455)
 
 def unsubscribeStaticOk (p : Unsubscribe) : Bool :=
@@ -107,6 +114,8 @@ structure Limits where
   wildcardAvailable : Bool := true
   subIdAvailable : Bool := true
   sharedAvailable : Bool := true
+  /-- not announced by the server but fixed by the connection: the Session Expiry Interval of the CONNECT -/
+  connectSessionExpiry : Nat := 0
   deriving Repr, BEq, DecidableEq
 
 def publishDynamicOk (l : Limits) (p : Publish) : Bool :=
@@ -122,7 +131,15 @@ def subscribeDynamicOk (l : Limits) (p : Subscribe) : Bool :=
   p.subscriptions.all (fun s => filterDynamicOk l s.topicFilter s.noLocal)
   && (p.subscriptionId.isNone || l.subIdAvailable)
 
-def unsubscribeDynamicOk (l : Limits) (p : Unsubscribe) : Bool :=
-  p.topicFilters.all (fun f => filterDynamicOk l f false)
+/-- 3.2.2.3.11 / 3.2.2.3.13 restrict the SUBSCRIBE packet ("If the Server receives a SUBSCRIBE packet containing a Wildcard
+    Subscription and it does not support Wildcard Subscriptions, this is a Protocol Error"; likewise Shared Subscriptions):
+    nothing a server announces limits an UNSUBSCRIBE -/
+def unsubscribeDynamicOk (_l : Limits) (p : Unsubscribe) : Bool :=
+  p.topicFilters.all (fun f => classify f != .invalid)
+
+/-- 3.14.2.2.2: "If the Session Expiry Interval in the CONNECT packet was zero, then it is a Protocol Error to set a non-zero
+    Session Expiry Interval in the DISCONNECT packet sent by the Client" -/
+def disconnectDynamicOk (l : Limits) (p : Disconnect) : Bool :=
+  !(l.connectSessionExpiry = 0 && (match p.sessionExpiry with | none => false | some v => v > 0))
 
 end GV.Spec
